@@ -59,6 +59,10 @@ Proof. reflexivity. Qed.
 (* the functions this property's model is an abstraction of still have the control / locking / shared-state skeleton the
    model was written against (Skeletons.v, by hand; Extracted.v, regenerated from /repo) *)
 Theorem c14_code_skeletons :
+  (* a pong is written with a deadline of one second from now (never unbounded, never already past), and no write deadline
+     is ever set on the connection itself *)
+  JRGen.Extracted.write_control_calls = ["conn.WriteControl(websocket.PongMessage, []byte(appData), time.Now().Add(time.Second))"]%string /\
+  JRGen.Extracted.write_deadline_calls = [] /\
   JRGen.Extracted.effects_sendRequest = JR.Skeletons.sendRequest /\
   JRGen.Extracted.effects_nextWriter = JR.Skeletons.nextWriter /\
   JRGen.Extracted.effects_handleOutChans = JR.Skeletons.handleOutChans.
